@@ -3,10 +3,11 @@
 (applied to /repo, undone afterwards) and file it under /verif/seeded/<PROP>-m<k>/ with meta.json."""
 import json, os, re, shutil, subprocess, sys
 prop, k = sys.argv[1], sys.argv[2]
-extra = sys.argv[3:]
+tag = sys.argv[3] if len(sys.argv) > 3 else ''
+extra = sys.argv[4:]
 wt = '/tmp/wt_%s' % prop
 m = '%s/out/m%s' % (wt, k)
-dst = '/verif/seeded/%s-m%s' % (prop, k)
+dst = '/verif/seeded/%s-%sm%s' % (prop, tag + '-' if tag else '', k)
 conf = subprocess.run(['/verif/tools/confirm_seed.sh', wt, m], stdout=subprocess.PIPE, stderr=subprocess.STDOUT, text=True).stdout.strip()
 print('confirm:', conf)
 ok = 'demo_clean_rc=0' in conf and 'demo_mutated_rc=0' not in conf and '100% tests passed, 0 tests failed out of 78' in conf and 'build_rc=0' in conf
